@@ -42,6 +42,9 @@ def match_known(known, pid, agg_ob, rep):
     return None
 
 
+_OBJ_CACHE = {}
+
+
 def native_of(T_, mv):
     """Build a native Python value of declared type T_ from the JSON model value mv."""
     if isinstance(T_, TConst):
@@ -81,13 +84,30 @@ def native_of(T_, mv):
                 raise ValueError("model list too long to materialise (%d elements)" % mv["list_len"])
             return head + [head[-1]] * (mv["list_len"] - len(head))
         return [native_of(T_.elem, x) for x in mv]
+    if isinstance(T_, TMap):
+        if "entries" not in mv:
+            raise ValueError("model has no entries for the map")
+        key = ("map", mv.get("ref"))
+        if key in _OBJ_CACHE:
+            return _OBJ_CACHE[key]
+        d = {}
+        _OBJ_CACHE[key] = d
+        for k, val in mv["entries"]:
+            if k >= (1 << 20):
+                raise ValueError("enum-keyed map cannot be rebuilt natively")
+            d[int(k)] = native_of(T_.valT, val)
+        return d
     if isinstance(T_, TObj):
         cls = T_.cls
+        key = (getattr(cls, "__name__", str(cls)), mv.get("ref"))
+        if key in _OBJ_CACHE:
+            return _OBJ_CACHE[key]       # same reference in the model = same native object (aliasing preserved)
         if "fields" not in mv:
             raise ValueError("model has no field values for object of %s" % getattr(cls, "__name__", cls))
         from .contracts import REGISTRY
         ftypes = REGISTRY.class_fields.get(cls, {})
         obj = cls.__new__(cls)
+        _OBJ_CACHE[key] = obj
         for k, fv in mv["fields"].items():
             if isinstance(fv, str) and fv.startswith("<"):
                 continue
@@ -154,6 +174,7 @@ def _replay_obligation(contract, agg_ob, pid):
         if contract.build is not None:
             args = contract.build(model, types)
         else:
+            _OBJ_CACHE.clear()
             args = {p: native_of(t, model.get(p)) for p, t in types.items()}
     except Exception as e:
         out["verdict"] = "not_replayable"
@@ -171,6 +192,10 @@ def _replay_obligation(contract, agg_ob, pid):
             elif isinstance(x, (list, tuple)):
                 for y in x:
                     collect(y, d + 1)
+            elif isinstance(x, dict):
+                for k_, y in x.items():
+                    collect(k_, d + 1)
+                    collect(y, d + 1)
             elif hasattr(x, "__dict__"):
                 for y in vars(x).values():
                     collect(y, d + 1)
@@ -182,7 +207,15 @@ def _replay_obligation(contract, agg_ob, pid):
     except Exception:
         pass
     out["args_native"] = {k: v for k, v in args.items()}
-    out["args_repr"] = {k: (repr(v) if not (isinstance(v, list) and len(v) > 64) else "list of %d elements starting %r" % (len(v), v[:8])) for k, v in args.items()}
+    def _safe_repr(v):
+        try:
+            return repr(v) if not (isinstance(v, list) and len(v) > 64) else "list of %d elements starting %r" % (len(v), v[:8])
+        except Exception:
+            try:
+                return "%s(%r)" % (type(v).__name__, vars(v))
+            except Exception:
+                return "<%s>" % type(v).__name__
+    out["args_repr"] = {k: _safe_repr(v) for k, v in args.items()}
     try:
         env = native_clause_env(contract, copy.deepcopy(args))
         for cl in contract.requires + contract.variant_requires.get(agg_ob["variant"], []):
